@@ -4,6 +4,23 @@
    (C03) and available to the tree backing (C01). *)
 From Ekit Require Import Common DecorSpec.
 
+(* a step-wise simulation extends to every history *)
+Lemma run_sim : forall {S1 S2 O R1 R2 : Type} (step1 : S1 -> O -> S1 * R1) (step2 : S2 -> O -> S2 * R2)
+    (R : S1 -> S2 -> Prop) (Q : R1 -> R2 -> Prop),
+  (forall s a o, R s a -> R (fst (step1 s o)) (fst (step2 a o)) /\ Q (snd (step1 s o)) (snd (step2 a o))) ->
+  forall s a, R s a -> forall ops,
+  R (fst (run step1 s ops)) (fst (run step2 a ops)) /\ Forall2 Q (snd (run step1 s ops)) (snd (run step2 a ops)).
+Proof.
+  intros S1 S2 O R1 R2 step1 step2 R Q Hstep s a H ops. revert s a H.
+  induction ops as [|o t IH]; intros s a H.
+  - cbn [run fst snd]. split; [exact H|constructor].
+  - cbn [run]. destruct (Hstep s a o H) as [H1 H2].
+    destruct (step1 s o) as [s1 r1]. destruct (step2 a o) as [a1 r2]. cbn [fst snd] in H1, H2.
+    destruct (IH s1 a1 H1) as [H3 H4].
+    destruct (run step1 s1 t) as [s2 rs1]. destruct (run step2 a1 t) as [a2 rs2]. cbn [fst snd] in *.
+    split; [exact H3|constructor; assumption].
+Qed.
+
 Section AssocLemmas.
   Variable V : Type.
   Variable eqb : Z -> Z -> bool.
